@@ -97,26 +97,27 @@ def main() -> int:
     if not runs:
         raise core.MachineryFailure("vacuous run: no generator run observed")
 
-    # V
-    chunk = 20000
+    # V: identical (kind of entry point, event trace) pairs are validated once; a verdict applies to every run of the class
+    classes = {}
+    for r in runs:
+        classes.setdefault(json.dumps([r["target"] == "smoke", r["events"]]), []).append(r)
+    reps = [rs[0] for rs in classes.values()]
+    pp = ck.work / "runs_part.json"
+    core.write_json(pp, [{"target": "smoke" if r["target"] == "smoke" else "generator", "events": r["events"]} for r in reps])
+    res = ck.tlc("GenTrace", what="V: observed runs are accepted by the contract (%d runs in %d trace classes)" % (len(runs), len(reps)), env={"VERIF_OBS": str(pp)}, cont=True, workers=1, timeout=900)
     counters = [0, 0, 0, 0]
-    for off in range(0, len(runs), chunk):
-        part = runs[off : off + chunk]
-        pp = ck.work / "runs_part.json"
-        core.write_json(pp, [{"target": r["target"], "events": r["events"]} for r in part])
-        res = ck.tlc("GenTrace", what="V: observed runs are accepted by the contract", env={"VERIF_OBS": str(pp)}, cont=True, workers=1, timeout=900)
-        for line in res.printed:
-            m = re.search(r"runs\", (\d+), (\d+), (\d+), (\d+)", line)
-            if m:
-                for k in range(4):
-                    counters[k] += int(m.group(k + 1))
-        for v in res.violations:
-            m = re.search(r"\bi = (\d+)", v["state"])
-            if not m:
-                raise core.MachineryFailure("cannot read the observation index from TLC's output: %r" % v["state"][:200])
-            r = part[int(m.group(1)) - 1]
-            if v["invariant"] == "Inv_WellFormed":
-                raise core.MachineryFailure("runner produced a malformed trace: %r" % (r,))
+    for rs in classes.values():
+        last = rs[0]["events"][-1]
+        counters[0] += len(rs)
+        counters[1 if (last["k"] == "ret" and last["n"] == 0) else 2 if last["k"] == "ret" else 3] += len(rs)
+    for v in res.violations:
+        m = re.search(r"\bi = (\d+)", v["state"])
+        if not m:
+            raise core.MachineryFailure("cannot read the observation index from TLC's output: %r" % v["state"][:200])
+        rep = reps[int(m.group(1)) - 1]
+        if v["invariant"] == "Inv_WellFormed":
+            raise core.MachineryFailure("runner produced a malformed trace: %r" % (rep,))
+        for r in classes[json.dumps([rep["target"] == "smoke", rep["events"]])]:
             case = cases[r["case"]]
             if replay and rp.get("key", {}).get("target") not in (None, r["target"]):
                 continue
@@ -136,7 +137,7 @@ def main() -> int:
                 "origin": case.get("origin"),
             }
             if case.get("snippets"):
-                replay_case["snippets"] = {t: s for t, s in case["snippets"].items() if t == r["target"]}
+                replay_case["snippets"] = {t: sn for t, sn in case["snippets"].items() if t == r["target"]}
             ck.violation(key, v["invariant"], replay_case, {k: r[k] for k in ("target", "mode", "events", "exc_type", "exc_site", "exc_msg", "stderr_head", "nfiles") if k in r}, detail)
 
     accepted_cases = [i for i, o in fronts.items() if o["front"] == "accepted"]
@@ -148,7 +149,7 @@ def main() -> int:
         "one evaluation = one run of main.execute (8 targets) or smoke.main.execute on a meta-model the front end accepted, "
         "traced as events; non-trivial = distinct (model text, target, snippet mode) of an accepted model. "
         "G: %d spec cases (templates x single features + pairs), %d accepted by the front end; + %d code->spec cases from dev/test_data; "
-        "outcomes: %d returned 0, %d reported (non-zero), %d raised" % (n_spec, n_spec_accepted, len(cases) - n_spec, counters[1], counters[2], counters[3])
+        "outcomes: %d returned 0, %d reported (non-zero), %d raised; %d distinct trace classes checked by TLC" % (n_spec, n_spec_accepted, len(cases) - n_spec, counters[1], counters[2], counters[3], len(reps))
     )
     ck.cov["accepted_models"] = len(distinct_texts)
     ck.cov["front_rejected_or_crashed"] = len(fronts) - n_accepted
